@@ -37,6 +37,14 @@ def cases(tier, seed):
                 for flip in ((0,) * len(es), (1,) * len(es)):
                     st = [dict(a=(b if fl else a), b=(a if fl else b), n=nseg[i], r=rad[i] * lam) for i, ((a, b), fl) in enumerate(zip(es, flip))]
                     yield dict(env='ideal' if ground else 'free', f=f, lam=lam, pts=pts, st=st)
+    if tier == 'thorough':
+        for ground in (False, True):
+            P, f, lam = geom.lattice(seed, ground=ground, n=7)
+            pts = [list(map(float, p)) for p in P]
+            for es in geom.edge_sets_new(7, 3):
+                nseg = [geom.auto_nseg(np.linalg.norm(P[a] - P[b]), 0.04 * lam, nmin=3) for a, b in es]
+                yield dict(env='ideal' if ground else 'free', f=f, lam=lam, pts=pts,
+                           st=[dict(a=a, b=b, n=nseg[i], r=(3e-5, 2e-4, 3e-5)[i] * lam) for i, (a, b) in enumerate(es)])
     for c in c06.extras(tier, seed):
         for i, ws in enumerate(c['descs']):
             yield dict(env=c['env'], f=c['f'], lam=c['lam'], wires=ws, name='%s#%d' % (c['extra'], i))
